@@ -206,6 +206,9 @@ func (prop) Run(t *testing.T, tape *kernel.Tape, sc kernel.Scenario) *kernel.Res
 			return res
 		}
 	} else {
+		if tape.Choose(25, "overlap-mode") == 24 {
+			return runOverlap(t, tape)
+		}
 		sp = drawSpec(tape)
 	}
 	if _, ok := kindSupported(sp.Mode, sp.Kind); !ok || sp.Mode < 0 || sp.Mode >= nModes {
